@@ -1,9 +1,11 @@
 CONSTANTS
+  CommitSeqBeforeWrite = FALSE
   FreezeBeforeMetaFlush = FALSE
+  AtomicRound = FALSE
   Name = {"m1", "m2"}
   MaxEntries = 3
   MaxCrash = 2
   MaxFlush = 3
 SPECIFICATION MCSpec
-INVARIANTS AckNotAhead NoLoss NoReapply
+INVARIANTS AckNotAhead NoLoss
 CHECK_DEADLOCK FALSE
